@@ -4,6 +4,51 @@ COMMON_NOTE = ("Trusted base: the simulator (sim/), the hook placement (every AB
                "Sampling, not enumeration.")
 TECH = "deterministic simulation with fault injection: seeded search over schedules/programs/configurations; "
 TEXT = {
+    "C02": {
+        "level_text": "Seeded exploration with an exact context-ownership monitor at the hook placed immediately before every user-level context switch (a context may be entered only if no simulated stream still owns it; ownership of the context being left is released exactly where its stack pointer is stored): suspend/resume races with resumers on other streams and directed-switch chains over every primitive (yield, yield_to, thread_yield_to, suspend_to, resume_yield_to, resume_suspend_to, exit_to, resume_exit_to, create_to, revive_to) with targets started or not, in private and shared pools, over memory-pool, malloc'ed odd-size and user-supplied 8-byte-offset stacks; every switch is wrapped in an assembly shim that keeps distinct patterns in rbx, rbp, r12-r15 and non-default MXCSR / x87 control words, stack-resident pattern arrays are compared across the switch, entry alignment, containment in the declared stack and pairwise disjointness of live stacks are asserted.",
+        "level_note": COMMON_NOTE,
+        "technique": TECH + "context-ownership invariant at the switch hook + register/FP-control/stack canaries + alignment and disjointness assertions, stall-after-publish and targeted delays",
+    },
+    "C06": {
+        "level_text": "Seeded exploration of units (ULTs and tasklets, unnamed) that yield, request migration and block on an eventual, self-suspend, a mutex or a condition variable inside pools served by exactly one stream; an external thread releases them only after ABT_xstream_join / ABT_xstream_free / ABT_finalize was issued; at return every unit of the stream's private pools must have terminated, the stream must be TERMINATED, num_blocked is never negative while the join is pending, ABT_finalize completes the rest; bounded liveness catches a join that never returns.",
+        "level_note": COMMON_NOTE,
+        "technique": TECH + "completion oracle at join/free/finalize return + num_blocked invariant (white-box read between steps) + bounded-liveness oracle, spurious wake-ups and stalls injected",
+    },
+    "C07": {
+        "level_text": "Seeded exploration of FIFO, FIFO_WAIT and RANDWS pools of every access mode, not attached to any scheduler, driven directly through the pool API (push, push_many, pop, pop_many, pop_wait, pop_timedwait, remove, legacy unit API, both RANDWS ends) by as many simulated client threads as the access mode permits; the recorded invoke/return history (stamped with the simulator's global step number) is checked for linearizability against a FIFO queue / double-ended queue model (empty or short pops linearize only at an instant with too few units), every unit is held by exactly one client at any time, size and emptiness are exact at quiescence.",
+        "level_note": COMMON_NOTE + " Histories are <= 48 operations; undecided searches (1e6 nodes) are counted, never passed or failed.",
+        "technique": TECH + "Wing-Gong linearizability check of recorded histories against a sequential queue/deque model + token conservation, spurious cond wake-ups, early nanosleep and clock jumps injected",
+    },
+    "C08": {
+        "level_text": "Seeded exploration of 1..6 waiters (ULT, external thread; a tasklet must get the documented error) over 1..5 rounds with ABT_barrier_reinit (possibly with another count) between some rounds, fast callers re-entering while slow ones are still leaving; per-round arrival counters are checked the moment each wait returns (nobody released before the last arrival, no round mix-up) and every waiter must return; the execution-stream barrier is checked the same way with one caller per stream (V0: wrapper over the simulated pthread barrier, thorough tier V1: Argobots' own sense-reversal barrier).",
+        "level_note": COMMON_NOTE,
+        "technique": TECH + "per-round arrival counters checked at every return + bounded-liveness oracle, slow-node schedules so that callers lap each other, spurious futex wake-ups",
+    },
+    "C09": {
+        "level_text": "Seeded exploration of eventual rounds (wait/set/test by ULTs, tasklets, external threads; racing setters; reset at quiescent points; 0-byte and 8-byte values unique per round and setter) and futures with 0..5 compartments with or without callback, late sets and testers: no wait returns and no test reports ready before a set was invoked, the value read is the successful setter's, exactly one set per round succeeds, the callback runs exactly once with every value and before any waiter returns, late sets fail, every waiter returns.",
+        "level_note": COMMON_NOTE,
+        "technique": TECH + "ready-before-set / value / callback-order oracles at every return + bounded-liveness oracle, spurious futex wake-ups",
+    },
+    "C10": {
+        "level_text": "Seeded exploration of 2..6 lockers (ULT, external thread) issuing rdlock/wrlock/unlock with pauses or yields inside sections; a holder model checks writer exclusivity and reader/writer exclusion at entry and throughout every section; reader inclusion is forced: a reader keeps its lock until a second reader has acquired one (a hang if readers excluded each other) while writers queue; every locker must finish.",
+        "level_note": COMMON_NOTE,
+        "technique": TECH + "holder reference model + forced-inclusion plan + bounded-liveness oracle; inherits the mutex/cond fault kinds",
+    },
+    "C11": {
+        "level_text": "Seeded exploration of (a) ULTs in pools served by several streams that suspend themselves while resumers on other streams / external threads poll for BLOCKED and resume at once: a suspended ULT must not run before its resume and runs exactly once per resume (the context-ownership monitor makes 'resumed while still running' exact), num_blocked never negative and balanced at the end; (b) directed-switch chains over all ten primitives among 2..6 ULTs, targets never started / held / blocked / terminated, private and shared pools: the unit that gets control next on the calling stream must be the named target, on the caller's stream, and the caller must be READY-in-pool / BLOCKED / TERMINATED as documented (asserted exactly when only the calling stream serves the pool).",
+        "level_note": COMMON_NOTE,
+        "technique": TECH + "slice-order oracle per stream + documented-caller-state assertions + context-ownership invariant + num_blocked balance, stall-after-publish at the BLOCKED store",
+    },
+    "C12": {
+        "level_text": "Seeded exploration of per-unit histories create / cancel / join / revive (up to 4 incarnations) / free over ULTs and tasklets with behaviours return, yields, endless yield loop, suspend, exit; cancel issued by a driver on another stream or an external thread at an arbitrary instant of the target's execution. A state-machine monitor observes every store to the unit's state word (hook granularity) and rejects any edge outside READY->RUNNING->(BLOCKED->READY->RUNNING)*->TERMINATED(->READY on revive); a scheduling point invoked after ABT_thread_cancel returned must not return; code after exit must not run; non-cancelled incarnations run exactly once, the joiner is always released, the ledger catches double or missing release under recycled descriptors.",
+        "level_note": COMMON_NOTE,
+        "technique": TECH + "state-machine monitor over every state store + cancel-deadline oracle + exactly-once counters + allocation ledger",
+    },
+    "C13": {
+        "level_text": "Seeded exploration of migration requests to pools issued by the unit itself or by an issuer on another stream / an external thread at arbitrary instants, repeated and overwritten, racing with the unit's yields and suspends; every accepted request is recorded with the simulator steps of its invocation and return, and at every slice the unit's ABT_self_get_last_pool must be the target of the last request that had returned before the scheduling point was invoked (requests overlapping the scheduling point or still in flight may be honoured now or next time); no move without a request, callback count between observed moves and accepted requests, exactly-once completion, num_blocked balanced; API rules: same-pool and non-migratable requests rejected, ABT_thread_migrate succeeds iff another running stream with a different pool exists.",
+        "level_note": COMMON_NOTE,
+        "technique": TECH + "request/slice history oracle over simulator step stamps + callback accounting + error-code rules",
+    },
     "C01": {
         "level_text": "Seeded exploration of creation forests (<= 24 named/unnamed ULTs and tasklets created from the primary ULT, ULTs, tasklets and external threads with create, create_on_xstream, create_many, create_to and revive; bodies with yields, mutex sections, child creation and joins) over randomised stream counts, pool kinds, predefined schedulers, shared/private pools and stacked schedulers (ABT_pool_add_sched); exactly-once counters, function/argument identity and unit kind are checked inside every unit and at every join/free, ABT_xstream_join of the only stream serving a pool, and ABT_finalize; bounded liveness catches dropped units.",
         "level_note": COMMON_NOTE,
